@@ -95,7 +95,12 @@ def handlers : List (String × (List Sexp → String)) := [
   ("c05.hyp", fun a => match a with
     | [x] => match parseStmt x with
       | some s => toString (Sexp.list [Sexp.ofBool (fnSupported s), Sexp.ofBool (fnFrag2 s), Sexp.ofBool (fnDistinctKeys s),
-                                       Sexp.ofBool (fnNoJumpInHandlerOfTryWithFinally s)])
+                                       Sexp.ofBool (fnNoJumpInHandlerOfTryWithFinally s), Sexp.ofBool (fnDistinctOwnerIds s)])
+      | none => "bad-node"
+    | _ => "bad-args"),
+  ("c05.owners", fun a => match a with
+    | [x] => match parseStmt x with
+      | some s => toString (Sexp.list ((fnOwnSpec s).map fun (n, ow) => Sexp.list (Sexp.ofNat n :: (sortNat ow).map Sexp.ofNat)))
       | none => "bad-node"
     | _ => "bad-args"),
   ("c05.class", fun a => match a with
